@@ -669,16 +669,11 @@ theorem relClass_of (c : Cfg) (hd : c.debug = false) (hclass : c.feats.format = 
   have hs := std_of c hd hclass (by intro _; omega)
   exact ⟨⟨hd, fun k => by rw [hs.nosep.skip k]; decide, by intro _; omega⟩, hs.noprefix, hs.nosep.sep0, hs.expRadix⟩
 
-/-- **`NumberExact`, proved** (with the two side conditions the statement in `Props.C01Main` lacks: the decimal point of
-the options is not a digit — implied by `is_valid_options_punctuation` — and the input is shorter than `2^60` bytes):
-every untruncated decimal `Number` the syntax layer produces for a format without digit separator and base prefix is
-exact, its digit slices are plain, and it has at most 19 significant digits. -/
-theorem number_exact_of_syntax (c : Cfg) (hd : c.debug = false)
-    (hclass : c.feats.format = false ∨ SepPrefixFree c.fmt) (hr : c.mantissaRadix = 10) (hb : c.exponentBase = 10)
-    (o : POpts) (hdp : charToDigit o.dp 10 = none) (isPartial : Bool) (s : List Nat) (fv : Bool)
-    (h256 : ∀ x ∈ s, x < 256) (hlen : s.length < 2 ^ 60) (n : Number) (cnt : Nat)
-    (hp : parseFloatSyntax c o isPartial s fv = .ok (.number n cnt)) (hmany : n.manyDigits = false) :
-    NumberExactAt c n ∧ PlainSlices c n ∧ (sigBytes n.integer n.fraction).length ≤ 19 := by
+theorem syntax_to_parse (c : Cfg) (hd : c.debug = false)
+    (hclass : c.feats.format = false ∨ SepPrefixFree c.fmt) (hr : c.mantissaRadix = 10)
+    (o : POpts) (isPartial : Bool) (s : List Nat) (fv : Bool) (n : Number) (cnt : Nat)
+    (hp : parseFloatSyntax c o isPartial s fv = .ok (.number n cnt)) :
+    ∃ (p : Bool) (b : Bytes) (neg : Bool) (cnt' : Nat), b.slc = s ∧ parseNumber c p o b neg fv = .ok (n, cnt') := by
   obtain ⟨hS, hpre, hsep, hre⟩ := relClass_of c hd hclass hr
   have hns : ∀ l, NoSep c l := noSep_of_sep_zero c hsep
   unfold parseFloatSyntax at hp
@@ -697,9 +692,8 @@ theorem number_exact_of_syntax (c : Cfg) (hd : c.debug = false)
       have hsame := isConsumed_same c hS r1.2 (hns _) r2 hic
       have hslc2 : r2.2.slc = s := by rw [hsame, hslc1]
       have key : ∀ p cnt', parseNumber c p o r2.2 r1.1 fv = .ok (n, cnt') →
-          NumberExactAt c n ∧ PlainSlices c n ∧ (sigBytes n.integer n.fraction).length ≤ 19 :=
-        fun p cnt' hpn => number_exact_of_parse c hS hpre hr hb hre p o hdp r2.2 r1.1 fv (hns _)
-          (by rw [hslc2]; exact h256) (by rw [hslc2]; exact hlen) n cnt' hpn hmany
+          ∃ (p : Bool) (b : Bytes) (neg : Bool) (cnt' : Nat), b.slc = s ∧ parseNumber c p o b neg fv = .ok (n, cnt') :=
+        fun p cnt' hpn => ⟨p, r2.2, r1.1, cnt', hslc2, hpn⟩
       split at hp
       · split at hp <;> cases hp
       · split at hp
@@ -1103,7 +1097,8 @@ theorem number_truncated_of_parse (c : Cfg) (hS : RelClass c) (hpre : c.basePref
     n.mantissa = ofDigits 10 (dv 10 ((sigBytes n.integer n.fraction).take 19)) ∧
     10 ^ 18 ≤ n.mantissa ∧ n.mantissa < 10 ^ 19 ∧
     n.exponent = ((sigBytes n.integer n.fraction).length : Int) - 19 + n.explicitExp - ((n.fraction.getD []).length : Int) ∧
-    -(2 ^ 40 : Int) ≤ n.explicitExp ∧ n.explicitExp ≤ 2 ^ 40 := by
+    -(2 ^ 40 : Int) ≤ n.explicitExp ∧ n.explicitExp ≤ 2 ^ 40 ∧
+    n.integer.length < 2 ^ 60 ∧ (n.fraction.getD []).length < 2 ^ 60 := by
   obtain ⟨ip, fp, ht, hstart, hnI, hids, hnF, hfrac, _, _⟩ := parseNumber_split c hS hpre isPartial o b neg fv hn n cnt h
   obtain ⟨explicit, ex0, endIdx, x2, x3, hpos, hmc⟩ := tailOf_many c hS hre isPartial o neg ip fp
     (by rw [hstart]; exact hn) (by rw [hids]; exact (hn.drop _).take _)
@@ -1229,6 +1224,45 @@ theorem number_truncated_of_parse (c : Cfg) (hS : RelClass c) (hpre : c.basePref
     have := ofDigits_take_pos hsg h48 hc0 19 (by decide)
     rw [htlen] at this
     exact this
-  exact ⟨hps, hNgt, w1, hwge, hwlt, by rw [w2, m3], by rw [m3]; exact x2, by rw [m3]; exact x3⟩
+  have hl1 : (rest.take dsI.length).length < 2 ^ 60 := by
+    rw [List.length_take, ← hrest, List.length_drop]; omega
+  have hl2 : (frac.getD []).length < 2 ^ 60 := by
+    rw [← hfr, m2]
+    split
+    · simp only [Option.getD_some, List.length_take, List.length_drop]; omega
+    · simp
+  exact ⟨hps, hNgt, w1, hwge, hwlt, by rw [w2, m3], by rw [m3]; exact x2, by rw [m3]; exact x3, hl1, hl2⟩
+
+/-- **`NumberExact`, proved** (with the two side conditions the statement in `Props.C01Main` lacks: the decimal point of
+the options is not a digit — implied by `is_valid_options_punctuation` — and the input is shorter than `2^60` bytes):
+every untruncated decimal `Number` the syntax layer produces for a format without digit separator and base prefix is
+exact, its digit slices are plain, and it has at most 19 significant digits. -/
+theorem number_exact_of_syntax (c : Cfg) (hd : c.debug = false)
+    (hclass : c.feats.format = false ∨ SepPrefixFree c.fmt) (hr : c.mantissaRadix = 10) (hb : c.exponentBase = 10)
+    (o : POpts) (hdp : charToDigit o.dp 10 = none) (isPartial : Bool) (s : List Nat) (fv : Bool)
+    (h256 : ∀ x ∈ s, x < 256) (hlen : s.length < 2 ^ 60) (n : Number) (cnt : Nat)
+    (hp : parseFloatSyntax c o isPartial s fv = .ok (.number n cnt)) (hmany : n.manyDigits = false) :
+    NumberExactAt c n ∧ PlainSlices c n ∧ (sigBytes n.integer n.fraction).length ≤ 19 := by
+  obtain ⟨hS, hpre, hsep, hre⟩ := relClass_of c hd hclass hr
+  obtain ⟨p, b, neg, cnt', hslc, hpn⟩ := syntax_to_parse c hd hclass hr o isPartial s fv n cnt hp
+  exact number_exact_of_parse c hS hpre hr hb hre p o hdp b neg fv (noSep_of_sep_zero c hsep _)
+    (by rw [hslc]; exact h256) (by rw [hslc]; exact hlen) n cnt' hpn hmany
+
+/-- the truncated counterpart: see `number_truncated_of_parse` -/
+theorem number_truncated_of_syntax (c : Cfg) (hd : c.debug = false)
+    (hclass : c.feats.format = false ∨ SepPrefixFree c.fmt) (hr : c.mantissaRadix = 10) (hb : c.exponentBase = 10)
+    (o : POpts) (hdp : charToDigit o.dp 10 = none) (isPartial : Bool) (s : List Nat) (fv : Bool)
+    (h256 : ∀ x ∈ s, x < 256) (hlen : s.length < 2 ^ 60) (n : Number) (cnt : Nat)
+    (hp : parseFloatSyntax c o isPartial s fv = .ok (.number n cnt)) (hmany : n.manyDigits = true) :
+    PlainSlices c n ∧ 19 < (sigBytes n.integer n.fraction).length ∧
+    n.mantissa = ofDigits 10 (dv 10 ((sigBytes n.integer n.fraction).take 19)) ∧
+    10 ^ 18 ≤ n.mantissa ∧ n.mantissa < 10 ^ 19 ∧
+    n.exponent = ((sigBytes n.integer n.fraction).length : Int) - 19 + n.explicitExp - ((n.fraction.getD []).length : Int) ∧
+    -(2 ^ 40 : Int) ≤ n.explicitExp ∧ n.explicitExp ≤ 2 ^ 40 ∧
+    n.integer.length < 2 ^ 60 ∧ (n.fraction.getD []).length < 2 ^ 60 := by
+  obtain ⟨hS, hpre, hsep, hre⟩ := relClass_of c hd hclass hr
+  obtain ⟨p, b, neg, cnt', hslc, hpn⟩ := syntax_to_parse c hd hclass hr o isPartial s fv n cnt hp
+  exact number_truncated_of_parse c hS hpre hr hb hre (by simp [Cfg.bytesContiguous, hsep]) p o hdp b neg fv
+    (noSep_of_sep_zero c hsep _) (by rw [hslc]; exact h256) (by rw [hslc]; exact hlen) n cnt' hpn hmany
 
 end LexVerif.Props.C01Number
